@@ -135,8 +135,13 @@ static std::string seq_of(void const* U, void const* J, bool joiner)
 {
     std::string s;
     std::lock_guard<std::mutex> l(g_evm);
+    bool started = false;    // the thread_data object may still emit events of its previous occupant
     for (auto const& e : g_ev)
     {
+        if (!joiner && !started)
+        {
+            if (e.site == 1315 && e.obj == U) started = true; else continue;
+        }
         if (joiner)
         {
             if (e.site == 1316 && e.obj == U) s += e.a ? "a1," : "a0,";
@@ -157,10 +162,18 @@ static std::string seq_of(void const* U, void const* J, bool joiner)
     s.pop_back();
     return s;
 }
+// was <site> recorded for thread_data <obj> after its thread function returned (1315)?  Events
+// recorded earlier belong to the previous occupant of the recycled thread_data object.
 static bool saw(int site, void const* obj)
 {
     std::lock_guard<std::mutex> l(g_evm);
-    for (auto const& e : g_ev) if (e.site == site && e.obj == obj) return true;
+    bool started = false;
+    for (auto const& e : g_ev)
+    {
+        if (e.obj != obj) continue;
+        if (e.site == 1315) started = true;
+        else if (started && e.site == site) return true;
+    }
     return false;
 }
 
@@ -236,7 +249,7 @@ static void mode_race(std::uint64_t seed, int n, bool f13)
             early = fin ? 0 : 1;
             // exit callbacks ran: either this join's callback was invoked, or the target had already
             // marked its callbacks as run
-            cbseen = (saw(1305, Jp.load()) || saw(1314, Up.load())) ? 1 : 0;
+            cbseen = (saw(1312, Up.load()) || saw(1314, Up.load())) ? 1 : 0;    // 1312 precedes the flag store
             joinable_after = target.joinable() ? 1 : 0;
         });
         joiner.join();
